@@ -39,12 +39,16 @@ def gen_case(rng):
         # decades of daily observations (every reported series has one entry per observation, however many there are)
         n = rng.choice([5001, 5200, 6500, 10400])
         d0 = rng.randrange(3653, 9000)    # from the 1980s / 1990s on
-    if rng.random() < 0.3:
+    if rng.random() < 0.06:
+        d0 = rng.randrange(-25000, 0)     # curves dated before 1970
+    elif rng.random() < 0.3:
         y = rng.randrange(2000, 2022)
         d0 = (dtm.date(y, 12, rng.randint(20, 31)) - EPOCH).days      # year crossing early
     e = rng.choice([1e6, 1e5, 1234567.89, 100.0])
     eq = [e]
     mode = rng.choice(['walk', 'first-peak', 'monotone-up', 'monotone-down', 'flat-stretches', 'walk', 'walk'])
+    if n > 1000:
+        mode = rng.choice(['walk', 'flat-stretches'])      # thousands of one-sided steps leave the range of a double
     for i in range(1, n):
         if mode == 'walk':
             e = e * math.exp(rng.gauss(0.0003, 0.012))
